@@ -14,6 +14,9 @@ import (
 
 func (u *Unit) loopClauses(st *State, lp *Loop) (inv, iter []*Clause, fs *FuncSpec) {
 	fs = u.specOfFrame(st)
+	if fs == nil && lp.inherited && st.frame != nil && st.frame.depth == 1 {
+		fs = u.fs // extracted loop: the caller's clauses for this loop number
+	}
 	if fs == nil {
 		return nil, nil, nil
 	}
@@ -88,7 +91,7 @@ func (u *Unit) callNamesInBlocks(fn *ssa.Function, blocks map[*ssa.BasicBlock]bo
 func (u *Unit) loopEnter(st *State, lp *Loop) {
 	inv, _, fs := u.loopClauses(st, lp)
 	tag := fmt.Sprintf("loop%d", lp.index)
-	if st.frame.fn != u.fn {
+	if st.frame.fn != u.fn && !(lp.inherited && st.frame.depth == 1) {
 		tag = relName(st.frame.fn) + "." + tag
 	}
 	first := lp.header.Instrs[0]
@@ -270,7 +273,7 @@ func (u *Unit) loopEnter(st *State, lp *Loop) {
 func (u *Unit) loopBackEdge(st *State, lp *Loop) {
 	inv, iter, fs := u.loopClauses(st, lp)
 	tag := fmt.Sprintf("loop%d", lp.index)
-	if st.frame.fn != u.fn {
+	if st.frame.fn != u.fn && !(lp.inherited && st.frame.depth == 1) {
 		tag = relName(st.frame.fn) + "." + tag
 	}
 	var lc *LoopCtx
